@@ -490,7 +490,7 @@ def _resolve_bad_swaps(swaps, edges, nlegs, ten1, ten2, axes1, axes2):
         r"""Get the leg of a tensor with minimal bad swaps until the returned leg crosses all contracted legs."""
         min_cross, ax = min((len(keys), ax) for ax, keys in ax_dict.items())
 
-        if min_cross == len(axes1): # No need to apply step-1
+        if min_cross == len(axes1) and ten1 != ten2:  # No need to apply step-1; for a trace, step-2 cannot be used
             return None
         return ax
 
@@ -536,6 +536,8 @@ def _resolve_bad_swaps(swaps, edges, nlegs, ten1, ten2, axes1, axes2):
     # legs.  Group by unique third-party edge: discard all bad swaps for that
     # edge, then do one jump from the contracted legs.
     tp = get_third_party_tensor()
+    if tp and ten1 == ten2:
+        raise YastnError("Likely inefficient order of contractions. A swap gate between a traced leg and a leg of another tensor cannot be resolved before the trace.")
     if nlegs[ten1] - len(axes1) <= nlegs[ten2] - len(axes2):
         t, ls = ten1, axes1
     else:
@@ -548,7 +550,8 @@ def _resolve_bad_swaps(swaps, edges, nlegs, ten1, ten2, axes1, axes2):
                 if edge in seen_edges:
                     continue
                 seen_edges.add(edge)
-                assert len(tp[C][ax]) == len(axes1), "Sanity check: all bad swaps for this edge should cross all contracted legs."
+                if len(tp[C][ax]) != len(axes1):
+                    raise YastnError("Likely inefficient order of contractions. A swap gate crosses only some of the legs that are contracted together and cannot be resolved.")
                 for _key, _ in tp[C][ax]:
                     z2.discard(_key)
                 jump(t, ls, edge)
